@@ -11,11 +11,11 @@ import json, os, time
 import vlib
 
 PARTS = [
-    # (key, harness dir, go package, test function)
+    # (key, harness dir, go package, test function); codec-level parts first
     ('message', 'robust', './internal/robust', 'TestVerifC18Message'),
+    ('batch', 'outputstream', './internal/outputstream', 'TestVerifC18Batch'),
     ('store', 'raftstore', './internal/raftstore', 'TestVerifC18Store'),
     ('fsm', 'main', '.', 'TestVerifC18FSM'),
-    ('batch', 'outputstream', './internal/outputstream', 'TestVerifC18Batch'),
 ]
 
 ASSUME = [
@@ -71,12 +71,20 @@ def run(tier):
     samples = []
     evaluations = 0
     distinct = 0
+    failures = []
     for key, hdir, pkg, test in PARTS:
         if only and key not in only:
             continue
         binary = _build(key, hdir, pkg)
         tp = time.time()
-        rs = vlib.run_workers(binary, test, vlib.NCPU, env={'VERIF_TIER': tier})
+        try:
+            rs = vlib.run_workers(binary, test, vlib.NCPU, env={'VERIF_TIER': tier})
+        except SystemExit as ex:
+            # a worker died (e.g. the unchecked decoders of the repository allocating from garbage lengths);
+            # this is a harness error unless another part pins the cause down as a violation
+            failures.append((key, ex))
+            vlib.log('C18 %s: %s' % (key, ex))
+            continue
         for r in rs:
             for v in r.get('violations') or []:
                 if v['sig'] in bysig:
@@ -96,14 +104,18 @@ def run(tier):
         ps = sum([r.get('samples') or [] for r in rs], [])
         samples += ['[%s] %s' % (key, s) for s in ps[:3]]
         vlib.log('C18 %s: grid %d, %d comparisons, %d distinct non-trivial, %.1fs' % (key, info['grid_size'], info['evaluations'], info['distinct_nontrivial'], time.time() - tp))
+    if failures and not bysig:
+        raise failures[0][1]
     cov = {
         'evaluations': evaluations,
         'distinct_nontrivial': distinct,
         'rule': RULE,
         'samples': samples,
-        'exhaustive': not only,
+        'exhaustive': not only and not failures,
         'parts': parts,
     }
+    if failures:
+        cov['parts_not_completed'] = {k: str(ex) for k, ex in failures}
     for key, info in parts.items():
         cov[key + '_grid_points'] = info['grid_size']
     vlib.finish('C18', tier, 'exploration', cov, list(bysig.values()), t0, assumptions=ASSUME)
